@@ -34,7 +34,7 @@ def run_C17(ctx):
     build_ids = set(range(len(scen))) if not quick else set(ctx.rng.sample(range(len(scen)), min(len(scen), 160)))
     # services whose generated identifiers meet (MC_Gen InitD) are always compiled: the defect there is a type error
     for i, s in enumerate(scen):
-        if {sv["name"] for sv in s["services"]} & {"NewFoo", "UnimplementedX", "foo", "New_Foo"} or s.get("msgs"):
+        if {sv["name"] for sv in s["services"]} & {"NewFoo", "UnimplementedX", "foo", "New_Foo", "Placeholder"} or s.get("msgs"):
             build_ids.add(i)
         s["build"] = i in build_ids
     scen.append(dict(golden=True, pkg="", services=[], gopkg="", deprecated=False, build=False))
